@@ -501,8 +501,13 @@ class SQLiteOrchestrator(BaseOrchestrator):
             )
             to_purge = [row[0] for row in cursor.fetchall()]
             cursor.close()
+        # release_waiters writes through its own connection: do it before this method opens
+        # its write transaction, otherwise the second invocation to purge finds the database
+        # locked by the first DELETE below (and stalls for the whole busy timeout)
+        for invocation_id in to_purge:
+            self.release_waiters(invocation_id)
+        with sqlite_conn(self.sqlite_db_path) as conn:
             for invocation_id in to_purge:
-                self.release_waiters(invocation_id)
                 conn.execute(
                     f"DELETE FROM {self.tables.INVOCATIONS} WHERE invocation_id = ?",
                     (invocation_id,),
